@@ -1,4 +1,5 @@
 import bisect
+import threading
 import warnings
 
 from itertools import combinations
@@ -79,6 +80,9 @@ class Interpreter:
         # Event queues
         self._internal_queue = []  # type: List[Tuple[float, InternalEvent]]
         self._external_queue = []  # type: List[Tuple[float, Event]]
+
+        # Lock protecting the queues, as events can be queued from other threads (e.g. with AsyncRunner)
+        self._queue_lock = threading.RLock()
 
         # Bound listeners
         self._listeners = []  # type: List[Callable[[MetaEvent], Any]]
@@ -351,12 +355,13 @@ class Interpreter:
         else:
             queue = self._external_queue
 
-        time = self.time + getattr(event, 'delay', 0)
-        position = bisect.bisect_right(  # type: ignore
-            _KeyifyList(queue, lambda t: (t[0], not isinstance(t[1], InternalEvent))),
-            (time, not isinstance(event, InternalEvent))
-        )
-        queue.insert(position, (time, event))
+        with self._queue_lock:
+            time = self.time + getattr(event, 'delay', 0)
+            position = bisect.bisect_right(  # type: ignore
+                _KeyifyList(queue, lambda t: (t[0], not isinstance(t[1], InternalEvent))),
+                (time, not isinstance(event, InternalEvent))
+            )
+            queue.insert(position, (time, event))
 
     def _raise_event(self, event: Union[InternalEvent, MetaEvent]) -> None:
         """
@@ -390,15 +395,16 @@ class Interpreter:
         :param consume: Indicates whether event should be consumed, default to False.
         :return: An instance of Event or None if no event is available
         """
-        for queue in cast(
-                Tuple[List[Tuple[float, Event]]],
-                (self._internal_queue, self._external_queue)):
-            if len(queue) > 0:
-                time, event = queue[0]
-                if time <= self.time:
-                    if consume:
-                        queue.pop(0)
-                    return event
+        with self._queue_lock:
+            for queue in cast(
+                    Tuple[List[Tuple[float, Event]]],
+                    (self._internal_queue, self._external_queue)):
+                if len(queue) > 0:
+                    time, event = queue[0]
+                    if time <= self.time:
+                        if consume:
+                            queue.pop(0)
+                        return event
         return None
 
     def _select_transitions(self, event: Optional[Event], states: Iterable[str], *,
@@ -811,6 +817,15 @@ class Interpreter:
         for condition in unsatisfied_conditions:
             raise exception_klass(configuration=self.configuration, step=step, obj=obj,
                                   assertion=condition, context=self.context)
+
+    def __getstate__(self):
+        attributes = self.__dict__.copy()
+        del attributes['_queue_lock']  # Locks cannot be pickled nor copied
+        return attributes
+
+    def __setstate__(self, state):
+        self.__dict__.update(state)
+        self._queue_lock = threading.RLock()
 
     def __repr__(self):
         return '{}({!r})'.format(self.__class__.__name__, self._statechart)
